@@ -36,6 +36,7 @@ class Recorder:
         self.ttl_drops = 0
         self.route_stack: List[Tuple[Any, int, int]] = []
         self.handed: List[Tuple[str, str]] = []  # (node, dst ip) of unicast frames handed to software
+        self.misdelivered: List[Tuple[str, str, str, str, str]] = []  # (node, mac-match|mac-mismatch, kind, proto, msg)
         self.max_depth = 0
 
     def begin_op(self):
@@ -48,6 +49,7 @@ class Recorder:
         self.node_events = 0
         self.frames = 0
         self.handed = []
+        self.misdelivered = []
 
     def v(self, sig: str, msg: str):
         if len(self.viol) < 50:
@@ -203,9 +205,10 @@ def install():
                         proto = str(frame.ip.protocol)
                         macs = [str(ni.mac_address).lower() for ni in node.network_interfaces.values()]
                         how = "mac-match" if dst_mac in macs else "mac-mismatch"
-                        rec.v(f"misdelivered:{how}:{_kind(node)}:{proto}",
-                              f"{node.config.hostname} (owns {[str(i) for i in owned]}) was handed a unicast "
-                              f"{proto} frame addressed to {dst}")
+                        rec.misdelivered.append((
+                            node.config.hostname, how, _kind(node), proto,
+                            f"{node.config.hostname} (owns {[str(i) for i in owned]}) was handed a unicast "
+                            f"{proto} frame addressed to {dst}"))
         return orig_rp(self, *args, **kwargs)
 
     SoftwareManager.receive_payload_from_session_manager = receive_payload_from_session_manager
